@@ -123,8 +123,27 @@ def quantity(q):
     return ObtainQuantity(OrderedDict((c, [u, int(e)]) for c, u, e in q))
 
 
-def build(spec):
-    """the Python object of a specification (raises what the real code raises)"""
+def spec_key(spec):
+    """identity of an operand inside one sequence: the specification without the `old` mark"""
+    import json
+
+    return json.dumps({k_: v for k_, v in spec.items() if k_ != "old"}, sort_keys=True)
+
+
+def build(spec, objs=None):
+    """the Python object of a specification (raises what the real code raises).  `objs` is the object store of
+    one SEQUENCE of operations: every object built is remembered under its specification, and an operand marked
+    `old` is the very object an earlier step of the sequence built from the same specification (not a new one)"""
+    if objs is not None:
+        key = spec_key(spec)
+        if spec.get("old") and key in objs:
+            return objs[key]
+        objs[key] = obj = _build(spec)
+        return obj
+    return _build(spec)
+
+
+def _build(spec):
     from barril.units import Array, Scalar
 
     np = _np()
@@ -175,6 +194,8 @@ def model_operand(spec):
 
 
 def render(spec):
+    if spec.get("old"):
+        return "<the object built before as> " + render({k_: v for k_, v in spec.items() if k_ != "old"})
     t = spec["t"]
     if t == "num":
         ty = spec["ty"]
@@ -254,11 +275,11 @@ def canon(r):
     return dict(ok=dict(t="bare", py=type(r).__name__))
 
 
-def run_binop(f, a, b):
-    """`a <op> b` on the real code, canonicalised; never raises"""
+def run_binop(f, a, b, objs=None):
+    """`a <op> b` on the real code, canonicalised; never raises (`objs`: the object store of a sequence)"""
     np = _np()
     try:
-        x, y = build(a), build(b)
+        x, y = build(a, objs), build(b, objs)
     except Exception as e:
         return dict(err="other", detail="operand does not build: %r" % (e,))
     try:
@@ -535,6 +556,69 @@ def dimension(db, q):
     except Exception:
         return None
     return {qt: e for qt, e in d.items() if e != 0}
+
+
+def unit_factor(db, q):
+    """Independent of the model: what ONE unit of the (derived) quantity `q` is worth in base units, the product
+    of slope(unit) ** exponent over its items (slope = increment of one unit in the base unit, from the table);
+    a Fraction, or None when something is unknown or a slope is zero"""
+    try:
+        f = Fraction(1)
+        for c, u, e in q:
+            tb = db.GetInfo(db.GetCategoryQuantityType(c), u).tobase
+            s_ = Fraction(tb(1.0)) - Fraction(tb(0.0))
+            if s_ == 0:
+                return None
+            f *= s_ ** int(e)
+        return f
+    except Exception:
+        return None
+
+
+# ------------------------------------------------------------------------------------------ fresh interpreter
+_FRESH = dict(spent=0.0, runs=0)
+FRESH_BUDGET_S = 45.0
+
+
+def in_child():
+    import os
+
+    return bool(os.environ.get("BARRIL_ORACLE_CHILD"))
+
+
+def fresh_oracle(module_id, case):
+    """`oracle(case)` of property module `module_id` evaluated in a NEW Python interpreter (no operation has run
+    there before: interned quantities, caches and every other piece of process state are as after import).
+    Returns ("ok", failure-or-None) or ("unavailable", why)."""
+    import json
+    import os
+    import subprocess
+    import sys
+    import time
+
+    if _FRESH["spent"] > FRESH_BUDGET_S:
+        return "unavailable", "time budget of fresh-interpreter runs used up"
+    here = os.path.dirname(os.path.abspath(__file__))
+    code = ("import sys, json; sys.path.insert(0, %r); sys.path.insert(0, %r)\n"
+            "import common; common.load_barril()\n"
+            "import engine; prop = engine.load_prop(%r)\n"
+            "ctx = engine.Ctx('quick', 0, None); prop.setup(ctx)\n"
+            "case = json.loads(sys.stdin.read())\n"
+            "sys.stdout.write('\\n@@RESULT@@' + json.dumps(prop.oracle(case, ctx), default=str))\n"
+            % (os.path.dirname(here), here, module_id))
+    env = dict(os.environ, BARRIL_ORACLE_CHILD="1")
+    t0 = time.time()
+    try:
+        p = subprocess.run([sys.executable, "-c", code], input=json.dumps(case), capture_output=True, text=True,
+                           timeout=120, env=env)
+    except Exception as e:
+        return "unavailable", repr(e)
+    finally:
+        _FRESH["spent"] += time.time() - t0
+        _FRESH["runs"] += 1
+    if p.returncode != 0 or "@@RESULT@@" not in p.stdout:
+        return "unavailable", (p.stderr or p.stdout)[-300:]
+    return "ok", json.loads(p.stdout.split("@@RESULT@@", 1)[1])
 
 
 LO, HI = Fraction(1, 10 ** 250), Fraction(10 ** 250)
